@@ -5,7 +5,9 @@ PROPS="${*:-C01 C02 C03 C04 C05 C06 C07 C08 C09 C10 C11 C12 C13 C14 C15 C16 C17 
 cd /repo || exit 2
 if ! git diff --quiet; then echo "/repo has uncommitted changes"; exit 2; fi
 git apply "$PATCH" || { echo "patch does not apply"; exit 2; }
-trap 'git -C /repo checkout -- . ; git -C /repo clean -fdq crates' EXIT INT TERM
+EVBK=$(mktemp -d /var/tmp/evbk.XXXXXX); cp /verif/evidence/C*.json $EVBK/ 2>/dev/null
+# evidence files written while a patch is applied describe the PATCHED tree: restore the committed ones afterwards
+trap 'git -C /repo checkout -- . ; git -C /repo clean -fdq crates; cp $EVBK/C*.json /verif/evidence/ 2>/dev/null; rm -rf $EVBK' EXIT INT TERM
 for p in $PROPS; do
   out=$(cd /verif && bin/check "$p" --tier quick 2>/dev/null | grep -E "VIOLATION|KNOWN" | head -3)
   if [ -n "$out" ]; then echo "=== $p FALSE ALARM"; echo "$out"; else echo "=== $p quiet"; fi
